@@ -306,10 +306,14 @@ pub fn typecheck_event(case: &Value) -> Value {
             let base = e.base_error();
             let v = serde_json::to_value(base).unwrap_or(Value::Null);
             let kind = v["type"].as_str().unwrap_or("?").to_string();
+            use rooc::model_transformer::TransformError as TE;
             let (op, lhs, rhs, msg) = match base {
-                rooc::model_transformer::TransformError::BinOpError { operator, lhs, rhs } => (format!("{:?}", operator), lhs.to_string(), rhs.to_string(), String::new()),
-                rooc::model_transformer::TransformError::UnOpError { operator, exp } => (format!("{:?}", operator), exp.to_string(), String::new(), String::new()),
-                rooc::model_transformer::TransformError::Other(m) => (String::new(), String::new(), String::new(), m.clone()),
+                TE::BinOpError { operator, lhs, rhs } => (format!("{:?}", operator), lhs.to_string(), rhs.to_string(), String::new()),
+                TE::UnOpError { operator, exp } => (format!("{:?}", operator), exp.to_string(), String::new(), String::new()),
+                TE::Other(m) => (String::new(), String::new(), String::new(), m.clone()),
+                // for these the fields carry: the undeclared name / expected and got kinds
+                TE::UndeclaredVariable(n) | TE::UndeclaredVariableDomain(n) => (String::new(), String::new(), String::new(), n.clone()),
+                TE::WrongArgument { got, expected } => (String::new(), expected.to_string(), got.to_string(), String::new()),
                 _ => (String::new(), String::new(), String::new(), String::new()),
             };
             json!({"kind":kind,"op":op,"lhs":lhs,"rhs":rhs,"msg":msg,"text":base.to_string()})
